@@ -742,6 +742,10 @@ func (engine *Engine) recv(ctx *app.RequestContext) {
 func (engine *Engine) ServeHTTP(c context.Context, ctx *app.RequestContext) {
 	ctx.SetBinder(engine.binder)
 	ctx.SetValidator(engine.validator)
+	// like binder and validator: what a handler of an earlier request installed on this
+	// (pooled) context must not outlive that request
+	ctx.SetClientIPFunc(engine.clientIPFunc)
+	ctx.SetFormValueFunc(engine.formValueFunc)
 	if engine.PanicHandler != nil {
 		defer engine.recv(ctx)
 	}
